@@ -34,6 +34,15 @@ def outline(m):
     return [(x * k, y * k) for x, y in SHELL], [[(x * k, y * k) for x, y in hh] for hh in HOLES[: m["holes"]]]
 
 
+def _azimuths(L):
+    """Number of distinct directions around the local z axis among the given (off-axis) points."""
+    if not len(L):
+        return 0
+    a = np.sort(np.mod(np.arctan2(L[:, 1], L[:, 0]), 2 * math.pi))
+    gaps = np.diff(np.concatenate([a, [a[0] + 2 * math.pi]]))
+    return int((gaps > 1e-6).sum())
+
+
 def poly_area(pts):
     p = np.asarray(pts, dtype=float)
     x, y = p[:, 0], p[:, 1]
@@ -504,6 +513,10 @@ class C15(World):
                 fail("inscribed", f"mesh volume {mesh_vol} != n-gon prism {prism}")
             if same(float(p.volume), math.pi * r * r * h, 1e-9, "v"):
                 fail("analytic", f"cylinder volume override {p.volume}")
+            # the wall has exactly `sections` facets
+            az = _azimuths(L[~on_axis])
+            if az != n:
+                fail("resolution", f"cylinder wall has {az} facets, sections = {n}")
             side = 2 * r * math.sin(math.pi / n)
             if same(tri_area(V[F]), n * side * h + 2 * (n / 2 * r * r * math.sin(2 * math.pi / n)), 1e-9, "a"):
                 fail("inscribed", "mesh area != n-gon prism area")
@@ -518,6 +531,14 @@ class C15(World):
             ok = np.where(wall, np.abs(rad - r) < 1e-7 * (1 + r), np.abs(d_cap - r) < 1e-7 * (1 + r))
             if not ok.all():
                 fail("surface", "capsule vertices are not on the wall / hemispheres")
+            # `sections` is "the number of facets in circle" (creation.capsule rounds odd counts up to the next even one)
+            n = m["sections"]
+            az = _azimuths(L[rad > 1e-7 * (1 + r)])
+            if az not in (n, n + n % 2):
+                if ctx.is_known("C15-capsule-ignores-sections") and az == 64:
+                    ctx.finding("C15-capsule-ignores-sections", f"sections={n}")
+                else:
+                    fail("resolution", f"capsule has {az} facets around its axis, sections = {n}")
             smooth = math.pi * r * r * h + 4 / 3 * math.pi * r**3
             if not (0.5 * smooth < mesh_vol <= smooth * (1 + 1e-9)):
                 fail("inscribed", f"capsule mesh volume {mesh_vol} vs smooth {smooth}")
@@ -545,6 +566,10 @@ class C15(World):
                 fail("direction", "vertices do not lie between the base plane and |height| along the reported direction")
         if kind != "Sphere" and same(np.asarray(p.bounds), np.array([V.min(axis=0), V.max(axis=0)]), 1e-9, "bounds"):
             fail("bounds", "bounds differ from the mesh extent")
+
+    def finding_programs(self, known):
+        m = {"radius": 1.0, "height": 2.0, "extents": [1.0, 1.0, 1.0], "sections": 8, "subdivisions": 1, "holes": 0, "pscale": 1.0, "transform": np.eye(4).tolist()}
+        return [("C15-capsule-ignores-sections", {"config": {"kind": "Capsule", "n_ops": 0}, "seed": 1, "ops": [{"op": "build", "model": m, "mutable": True, "rs": 1}]})]
 
     def simplify_op(self, op):
         out = []
